@@ -149,7 +149,7 @@ mutual
         · rename_i hf
           simp only [reduce, ih, hall, hf, if_true]
       · rename_i hall
-        simp only [reduce, ih, hall, if_false]
+        simp only [reduce, ih, hall]
         simp
     | .varRef val ty => by
       simp only [reduce]
@@ -218,5 +218,222 @@ theorem Reduce_idem (V : Valuer F) (e : RExpr F) :
     revert hb
     cases x <;> simp [RExpr.isBinary]
   | _ => simp only [hx] at h ⊢ <;> simp [h]
+
+/-! ### Time arithmetic folds to the exact instant, duration or truth value
+
+Instants are exact `Int` nanoseconds (Go's `time.Time` covers a far wider range than `int64`
+nanoseconds, `Time.Add` is exact there); durations are `int64`. -/
+
+/-- instant `+` duration, duration `+` instant. -/
+theorem fold_time_add (loc t d : Int) :
+    reduceBinary A S loc .ADD (.time t) (.dur d) = .time (t + d) ∧
+    reduceBinary A S loc .ADD (.dur d) (.time t) = .time (t + d) := by
+  simp [reduceBinary, BinOp.ofToken, reduceDispatch, reduceTimeLHS, reduceTimeLHS₀,
+    reduceDurLHS, reduceDurLHS₀]
+
+/-- instant `-` duration.
+
+Full statement: the result is the instant `t - d`. The code computes `t.Add(-d)` and the negation
+of the duration `MinInt64` wraps (`fold_time_sub_counterexample`), so this is the statement for
+every other `int64` duration. -/
+theorem fold_time_sub_partial (loc t d : Int) (hd : minInt64 < d ∧ d ≤ maxInt64) :
+    reduceBinary A S loc .SUB (.time t) (.dur d) = .time (t - d) := by
+  have : wrap64 (-d) = -d := by
+    apply wrap64_id <;> (unfold minInt64 maxInt64 at *; omega)
+  simp [reduceBinary, BinOp.ofToken, reduceDispatch, reduceTimeLHS, reduceTimeLHS₀, this]
+  omega
+
+/-- `t - MinInt64ns` folds to the instant `2^63` ns *before* `t` instead of after it. -/
+theorem fold_time_sub_counterexample (loc t : Int) :
+    reduceBinary A S loc .SUB (.time t) (.dur minInt64) = .time (t - 9223372036854775808) ∧
+    t - minInt64 = t + 9223372036854775808 := by
+  have : wrap64 (-minInt64) = minInt64 := by decide
+  simp [reduceBinary, BinOp.ofToken, reduceDispatch, reduceTimeLHS, reduceTimeLHS₀, this]
+  unfold minInt64
+  omega
+
+/-- The difference of two instants is the exact duration whenever it is a duration at all
+(`int64` nanoseconds, about ±292 years); beyond that `Time.Sub` saturates. -/
+theorem fold_time_diff (loc t u : Int) :
+    reduceBinary A S loc .SUB (.time t) (.time u) = .dur (timeSub t u) ∧
+    (minInt64 ≤ t - u ∧ t - u ≤ maxInt64 → timeSub t u = t - u) := by
+  constructor
+  · simp [reduceBinary, BinOp.ofToken, reduceDispatch, reduceTimeLHS, reduceTimeLHS₀]
+  · intro h
+    unfold timeSub
+    simp only []
+    split
+    · omega
+    · split <;> omega
+
+/-- The six comparisons of two instants fold to their truth value. -/
+theorem fold_time_cmp (loc t u : Int) :
+    reduceBinary A S loc .EQ (.time t) (.time u) = .bool (decide (t = u)) ∧
+    reduceBinary A S loc .NEQ (.time t) (.time u) = .bool (decide (t ≠ u)) ∧
+    reduceBinary A S loc .LT (.time t) (.time u) = .bool (decide (t < u)) ∧
+    reduceBinary A S loc .LTE (.time t) (.time u) = .bool (decide (t ≤ u)) ∧
+    reduceBinary A S loc .GT (.time t) (.time u) = .bool (decide (t > u)) ∧
+    reduceBinary A S loc .GTE (.time t) (.time u) = .bool (decide (t ≥ u)) := by
+  refine ⟨?_, ?_, ?_, ?_, ?_, ?_⟩ <;>
+    simp [reduceBinary, BinOp.ofToken, reduceDispatch, reduceTimeLHS, reduceTimeLHS₀] <;>
+    (first | done | omega | (rw [Bool.eq_iff_iff]; simp <;> omega))
+
+/-- An integer next to a duration is a timestamp in nanoseconds: `n ± d` folds to the instant;
+an integer next to an instant is a duration. -/
+theorem fold_timestamp (loc n d t : Int) (hd : minInt64 < d ∧ d ≤ maxInt64) :
+    reduceBinary A S loc .ADD (.int n) (.dur d) = .time (n + d) ∧
+    reduceBinary A S loc .SUB (.int n) (.dur d) = .time (n - d) ∧
+    reduceBinary A S loc .ADD (.time t) (.int d) = .time (t + d) ∧
+    reduceBinary A S loc .SUB (.time t) (.int d) = .time (t - d) ∧
+    reduceBinary A S loc .ADD (.int d) (.time t) = .time (t + d) := by
+  have : wrap64 (-d) = -d := by
+    apply wrap64_id <;> (unfold minInt64 maxInt64 at *; omega)
+  refine ⟨?_, ?_, ?_, ?_, ?_⟩ <;>
+    simp [reduceBinary, BinOp.ofToken, reduceDispatch, reduceIntLHS, reduceTimeLHS, reduceTimeLHS₀,
+      reduceDurLHS, reduceDurLHS₀, RExpr.isBinary, this] <;>
+    (first | done | omega | (rw [Bool.eq_iff_iff]; simp <;> omega))
+
+/-- `now() ± d` with a `NowValuer` folds to the instant. -/
+theorem fold_now (now : Int) (zone : Option Int) (d : Int) (hd : minInt64 < d ∧ d ≤ maxInt64) :
+    reduce A S (Valuer.now now zone) (.binary .SUB (.call ['n', 'o', 'w'] []) (.dur d))
+      = .time (now - d) ∧
+    reduce A S (Valuer.now now zone) (.binary .ADD (.call ['n', 'o', 'w'] []) (.dur d))
+      = .time (now + d) := by
+  have : wrap64 (-d) = -d := by
+    apply wrap64_id <;> (unfold minInt64 maxInt64 at *; omega)
+  constructor <;>
+    simp [reduce, reduceArgs, Valuer.now, asLiteral, reduceBinary, BinOp.ofToken, reduceDispatch,
+      reduceTimeLHS, reduceTimeLHS₀, this] <;>
+    (first | done | omega | (rw [Bool.eq_iff_iff]; simp <;> omega))
+
+/-- A string that converts to an instant (`ToTimeLiteral`) behaves as that instant next to a
+duration or an instant. -/
+theorem fold_date_string (loc : Int) (s : Str) (t d u : Int) (hs : S.toTime loc s = some t)
+    (hd : minInt64 < d ∧ d ≤ maxInt64) :
+    reduceBinary A S loc .ADD (.str s) (.dur d) = .time (t + d) ∧
+    reduceBinary A S loc .SUB (.str s) (.dur d) = .time (t - d) ∧
+    reduceBinary A S loc .SUB (.str s) (.time u) = .dur (timeSub t u) ∧
+    reduceBinary A S loc .LT (.time u) (.str s) = .bool (decide (u < t)) ∧
+    reduceBinary A S loc .GTE (.str s) (.time u) = .bool (decide (t ≥ u)) := by
+  have : wrap64 (-d) = -d := by
+    apply wrap64_id <;> (unfold minInt64 maxInt64 at *; omega)
+  refine ⟨?_, ?_, ?_, ?_, ?_⟩ <;>
+    simp [reduceBinary, BinOp.ofToken, reduceDispatch, reduceStrLHS, reduceStrAsTime, hs,
+      reduceTimeLHS, reduceTimeLHS₀, RExpr.isBinary, this] <;>
+    (first | done | omega | (rw [Bool.eq_iff_iff]; simp <;> omega))
+
+/-! ### The executable date reader on concrete strings (kernel-evaluated) -/
+
+/-- `2000-01-01`, `2000-01-01 00:00:00` and `2000-01-01T00:00:00Z` are the same instant in UTC;
+fractions, explicit offsets and the location are honoured; impossible dates are rejected. -/
+theorem toTime_examples :
+    toTimeLiteral 0 ['2','0','0','0','-','0','1','-','0','1'] = some 946684800000000000 ∧
+    toTimeLiteral 0 ['2','0','0','0','-','0','1','-','0','1',' ','0','0',':','0','0',':','0','0']
+      = some 946684800000000000 ∧
+    toTimeLiteral 0 ['2','0','0','0','-','0','1','-','0','1','T','0','0',':','0','0',':','0','0','Z']
+      = some 946684800000000000 ∧
+    toTimeLiteral 0 ['2','0','0','0','-','0','1','-','0','1','T','0','1',':','0','0',':','0','0','.','5','+','0','1',':','0','0']
+      = some 946684800500000000 ∧
+    toTimeLiteral 3600 ['2','0','0','0','-','0','1','-','0','1'] = some 946681200000000000 ∧
+    toTimeLiteral 0 ['2','0','0','0','-','0','2','-','3','0'] = none ∧
+    toTimeLiteral 0 ['1','9','7','0','-','0','1','-','0','1'] = some 0 := by
+  decide
+
+/-! ### Where the code violates the full statement -/
+
+def cxA : Str := ['2','0','0','0','-','0','1','-','0','1']
+def cxB : Str := ['2','0','0','0','-','0','1','-','0','1',' ','0','0',':','0','0',':','0','0']
+
+/-- The bindings `a ↦ "2000-01-01"`, `b ↦ "2000-01-01 00:00:00"`. -/
+def cxEnv : Str → Option (Value F) := fun x =>
+  if x = ['a'] then some (.str cxA) else if x = ['b'] then some (.str cxB) else none
+
+def cxΓ : Str → Option Ty := fun x => if x = ['a'] ∨ x = ['b'] then some .str else none
+
+/-- `a = b`. -/
+def cxExpr : RExpr F := .binary .EQ (.varRef ['a'] .Unknown) (.varRef ['b'] .Unknown)
+
+/-- **Counterexample to the unrestricted statement** (with the executable date reader, for every
+floating-point structure): `a = b` is well typed (two strings), `a ↦ "2000-01-01"`,
+`b ↦ "2000-01-01 00:00:00"`; `Reduce` with both bindings folds it to `true` (the two strings are
+the same instant), `Eval` under the same bindings gives `false` (they are different strings). -/
+theorem eval_reduce_counterexample :
+    HasType (F := F) cxΓ cxExpr .bool ∧
+    EnvOk cxΓ (envUnion (cxEnv (F := F)) (fun _ => none)) ∧
+    eval A goStrAlg true (Valuer.map (fun _ => none)) (Reduce A goStrAlg (Valuer.map cxEnv) cxExpr)
+      = .bool true ∧
+    eval A goStrAlg true (Valuer.map (envUnion cxEnv (fun _ => none))) cxExpr = .bool false ∧
+    dateSafe A goStrAlg (Valuer.map (envUnion cxEnv (fun _ => none))) (cxExpr (F := F)) = false := by
+  have ta : toTimeLiteral 0 cxA = some 946684800000000000 := by decide
+  have tb : toTimeLiteral 0 cxB = some 946684800000000000 := by decide
+  have la : isTimeLiteral cxA = true := by decide
+  have lb : isTimeLiteral cxB = true := by decide
+  have ne : (cxA == cxB) = false := by decide
+  refine ⟨?_, ?_, ?_, ?_, ?_⟩
+  · exact HasType.binary _ _ _ .str .str .bool
+      (HasType.var _ _ _ (by simp [cxΓ])) (HasType.var _ _ _ (by simp [cxΓ])) (by simp [BinOp.ofToken, opTy])
+  · intro x τ h
+    unfold cxΓ at h
+    by_cases hx : x = ['a']
+    · subst hx
+      simp at h
+      subst h
+      exact ⟨.str cxA, by simp [envUnion, cxEnv], by simp [tyOf], by simp [okVal]⟩
+    · by_cases hy : x = ['b']
+      · subst hy
+        simp at h
+        subst h
+        exact ⟨.str cxB, by simp [envUnion, cxEnv], by simp [tyOf], by simp [okVal]⟩
+      · simp [hx, hy] at h
+  · simp [Reduce, cxExpr, reduce, Valuer.map, cxEnv, asLiteral, reduceBinary, BinOp.ofToken,
+      reduceDispatch, reduceStrLHS, reduceStrEq, goStrAlg, la, lb, ta, tb, reduceTimeLHS,
+      reduceTimeLHS₀, RExpr.isBinary, eval]
+  · simp [cxExpr, eval, Valuer.map, envUnion, cxEnv, BinOp.ofToken, evalBin, nilCast, evalStrLHS, ne]
+  · simp [cxExpr, dateSafe, eval, Valuer.map, envUnion, cxEnv, BinOp.ofToken, dateOk, goStrAlg, la, lb]
+
+/-- The property is stated "with integer division as float division": with
+`IntegerFloatDivision` off it fails, `Reduce` folds `7 / 2` to the float quotient while `Eval`
+gives the integer `3`. -/
+theorem eval_reduce_needs_float_division (V : Valuer F) :
+    eval A S false V (Reduce A S V (.binary .DIV (.int 7) (.int 2)))
+      = .float (A.div (A.ofInt 7) (A.ofInt 2)) ∧
+    eval A S false V (.binary .DIV (.int 7) (.int 2)) = .int 3 := by
+  constructor
+  · simp [Reduce, reduce, reduceBinary, BinOp.ofToken, reduceDispatch, reduceIntLHS, eval]
+  · simp [eval, BinOp.ofToken, evalBin, nilCast, evalIntLHS]
+    decide
+
+/-! ### Non-vacuity -/
+
+/-- A well-typed expression with every kind of value in it:
+`(i + 1) * u > f / 2 AND s = 'x' OR NOT-free b`. -/
+example : HasType (F := F)
+    (fun x => if x = ['i'] then some .int else if x = ['u'] then some .uint
+      else if x = ['f'] then some .float else if x = ['s'] then some .str
+      else if x = ['b'] then some .bool else none)
+    (.binary .OR
+      (.binary .AND
+        (.binary .GT
+          (.binary .MUL (.paren (.binary .ADD (.varRef ['i'] .Unknown) (.int 1))) (.varRef ['u'] .Unknown))
+          (.binary .DIV (.varRef ['f'] .Unknown) (.int 2)))
+        (.binary .EQ (.varRef ['s'] .Unknown) (.str ['x'])))
+      (.varRef ['b'] .Unknown))
+    .bool := by
+  refine HasType.binary _ _ _ .bool .bool .bool ?_ (HasType.var _ _ _ (by simp)) (by simp [BinOp.ofToken, opTy])
+  refine HasType.binary _ _ _ .bool .bool .bool ?_ ?_ (by simp [BinOp.ofToken, opTy])
+  · refine HasType.binary _ _ _ .uint .float .bool ?_ ?_ (by simp [BinOp.ofToken, opTy, numJoin])
+    · refine HasType.binary _ _ _ .int .uint .uint ?_ (HasType.var _ _ _ (by simp)) (by simp [BinOp.ofToken, opTy, numJoin])
+      exact HasType.paren _ _ (HasType.binary _ _ _ .int .int .int (HasType.var _ _ _ (by simp))
+        (HasType.int _ (by decide)) (by simp [BinOp.ofToken, opTy, numJoin]))
+    · exact HasType.binary _ _ _ .float .int .float (HasType.var _ _ _ (by simp))
+        (HasType.int _ (by decide)) (by simp [BinOp.ofToken, opTy, numJoin])
+  · exact HasType.binary _ _ _ .str .str .bool (HasType.var _ _ _ (by simp)) (HasType.str _)
+      (by simp [BinOp.ofToken, opTy])
+
+/-- `dateSafe` is satisfiable on string equalities (`'x' = 'x'`). -/
+example : dateSafe A goStrAlg (Valuer.map (fun _ => none))
+    (.binary .EQ (.str ['x']) (.str ['x']) : RExpr F) = true := by
+  have : isTimeLiteral ['x'] = false := by decide
+  simp [dateSafe, eval, BinOp.ofToken, dateOk, goStrAlg, this]
 
 end InfluxQL.C09
